@@ -367,7 +367,7 @@ class Run:
         retry that finds nothing leaves the job undecided."""
         res = self._run_job_once(job)
         if (res["status"] == "undecided" and res["reason"].startswith("cbmc timeout") and job.get("kind", "obligation") != "canary"
-                and "--stop-on-fail" not in job.get("cbmc", [])):
+                and "--stop-on-fail" not in job.get("cbmc", []) and not job.get("no_retry") and os.environ.get("VERIF_NO_RETRY") != "1"):
             job2 = dict(job, defs=list(job.get("defs", [])) + ["-DV_NO_VREACH"], cbmc=list(job.get("cbmc", [])) + ["--stop-on-fail"],
                         noreach=True, timeout=min(job.get("timeout", 300), 900))
             res2 = self._run_job_once(job2)
